@@ -8,6 +8,7 @@ import (
 	"bytes"
 	"fmt"
 	"io"
+	"strings"
 
 	"filippo.io/age"
 	"filippo.io/age/armor"
@@ -252,6 +253,52 @@ func checkC12(c *Ctx) {
 			}
 		}
 	}
+	// io.Copy into the encrypting writer (what cmd/age does; would use a ReaderFrom fast path if one existed)
+	for _, n := range []int{0, 100, chunkSize, 2 * chunkSize, chunkSize + 1} {
+		plain := c.rng.bytes(n)
+		tape := c.rng.bytes(100)
+		ref := runSession(ps, tape, [][]byte{plain}, nil, false)
+		setTape(tape)
+		var buf bytes.Buffer
+		w, err := age.Encrypt(&buf, pty.rcpt)
+		if err == nil {
+			_, err = io.Copy(w, io.MultiReader(bytes.NewReader(plain))) // MultiReader: no WriteTo
+			if err == nil {
+				err = w.Close()
+			}
+		}
+		clearTape()
+		in := map[string]interface{}{"plain_len": n, "path": "io.Copy"}
+		c.Oracle("output-independent-of-write-segmentation", err == nil && bytes.Equal(buf.Bytes(), ref.sink.acc), "write-segmentation", in, "io.Copy into the encrypting writer produces a different file than one Write")
+		c.note(fmt.Sprint("copy:", n), true)
+		c.count("write-io.Copy")
+	}
+	// de-armoring damaged armor under different delivery schedules
+	{
+		k, _ := implArmor([][]byte{c.rng.bytes(100)}, nil)
+		valid := string(k.acc)
+		texts := []string{valid, valid + " x", valid + "\n\ngarbage\n", valid + strings.Repeat(" ", 1024), valid + strings.Repeat("\n", 1500), valid + strings.Repeat(" ", 1023), valid + "\t\n \r\n"}
+		for ti, t := range texts {
+			var ref string
+			for si, pieces := range [][]int{nil, {1}, {3}, {64}, {4096}} {
+				pieces = repeatPiece(pieces, len(t))
+				for _, eofdata := range []bool{false, true} {
+					r := armor.NewReader(newSrc([]byte(t), pieces, eofdata, -1))
+					out, err, _ := drainReader(r, nil, 48, 4*len(t)+100)
+					res := lst(hx(out), implOutcome(err))
+					if ref == "" {
+						ref = res
+						m := parseAll(c.model.Call("dearmor", hxs(t), ":eof", num(48)))[0]
+						c.Compare("armor.Reader(trailing data)~Armor.dearmor_from", map[string]int{"text": ti}, res, lst(m.list[1].String(), projOutcome(m.list[2].atom)))
+					}
+					c.Oracle("dearmor-independent-of-delivery", res == ref, "armor-read-schedule", map[string]interface{}{"text": ti, "schedule": si, "eof_with_data": eofdata},
+						"de-armoring gives "+clipN(res, 60)+" under this delivery but "+clipN(ref, 60)+" when delivered at once")
+					c.note(fmt.Sprint("armor-sched:", ti, si, eofdata), true)
+					c.count("armor-read-schedule")
+				}
+			}
+		}
+	}
 	// ---- reading ----
 	type tf struct {
 		name  string
@@ -347,6 +394,9 @@ func checkC13(c *Ctx) {
 			segs = append(segs, [][]byte{plain[:h], {}, plain[h:]})
 		}
 		for si, ws := range segs {
+			if n > 1000 && si > 0 && !c.thorough() {
+				continue
+			}
 			for _, armored := range []bool{false, true} {
 				base := runSession(ps, tape, ws, nil, armored)
 				calls := base.sink.calls
@@ -356,14 +406,14 @@ func checkC13(c *Ctx) {
 						idxs = append(idxs, i)
 					}
 				} else {
-					for i := 0; i < 25; i++ {
+					for i := 0; i < 20; i++ {
 						idxs = append(idxs, i)
 					}
-					for i := calls - 12; i < calls; i++ {
+					for i := calls - 8; i < calls; i++ {
 						idxs = append(idxs, i)
 					}
-					for i := 0; i < 15; i++ {
-						idxs = append(idxs, 25+c.rng.intn(calls-37))
+					for i := 0; i < 8; i++ {
+						idxs = append(idxs, 20+c.rng.intn(calls-28))
 					}
 				}
 				for _, idx := range idxs {
@@ -408,8 +458,11 @@ func checkC13(c *Ctx) {
 		}
 	}
 	// ---- source faults ----
-	for _, n := range []int{0, 30, chunkSize + 3} {
+	for _, n := range []int{0, 30, chunkSize, chunkSize + 3} {
 		for _, armored := range []bool{false, true} {
+			if n == chunkSize && armored && !c.thorough() {
+				continue
+			}
 			sc := &scenario{parties: ps, plain: c.rng.bytes(n), tape: c.rng.bytes(100), armor: armored}
 			f, err, _, _ := encryptImpl(sc)
 			if err != nil {
